@@ -129,7 +129,7 @@ def verify_contract(c, src_index, unroll=0, timeout_ms=20000, registry=REGISTRY,
                     extra = pk.pop(kwn.arg)              # the contract's value for **kwargs is spread into keyword arguments
                     pk.update(extra)
                 # parameters of the real function that the contract does not supply are universally quantified too:
-                # a boolean default is explored with both truth values; any other default is kept and the proof is
+                # a boolean default is explored with both truth values, a None default with None and with an arbitrary opaque value; any other default is kept and the proof is
                 # marked partial for that parameter (a parameter added to the code later cannot slip under a contract)
                 a_ = f.node.args
                 plist = [x.arg for x in a_.posonlyargs + a_.args]
@@ -142,6 +142,9 @@ def verify_contract(c, src_index, unroll=0, timeout_ms=20000, registry=REGISTRY,
                     if isinstance(dflt[nm], bool):
                         which = run.choose([(f'{nm}={dflt[nm]}', True), (f'{nm}={not dflt[nm]}', True)], f'uncovered parameter {nm}')
                         pk[nm] = dflt[nm] if which == f'{nm}={dflt[nm]}' else (not dflt[nm])
+                    elif dflt[nm] is None:
+                        which = run.choose([(f'{nm}=None', True), (f'{nm}=<some value>', True)], f'uncovered parameter {nm}')
+                        pk[nm] = None if which == f'{nm}=None' else Opaque('arbitrary', f'value of the uncovered parameter {nm}')
                     else:
                         note = f'PARTIAL parameter {nm} is not covered by the contract: explored only with its default {dflt[nm]!r}'
                         if note not in run.notes:
